@@ -6,7 +6,7 @@
 From Coq Require Import List ZArith String Bool PArith Lia.
 From TP Require Import Json PyPrim Machine Api Spec SpecHas Mutate SpecSet Obs Dsl Run.
 From TP.proofs Require Import RefineBase Refine NextLayer Iterate WfRun Query SpecLemmas BelowLemmas MatchLemmas
-     MutateProofs CsetLemmas CascadeRefine RoundTrip RoundTripApi.
+     Top HasScan HasLoop HasRefine ApiTop FirstNext MutateProofs CsetLemmas CascadeRefine RoundTrip RoundTripApi.
 Import ListNotations.
 Close Scope Z_scope.
 Open Scope list_scope.
@@ -120,4 +120,126 @@ Proof.
   pose proof (deval_reach sev doc Hu p (root_ctx doc) Hnp (reach_root doc)) as Hall. rewrite Forall_forall in Hall.
   pose proof (Hall _ Hin) as Hr.
   exact (match_assign_position doc m pm x Hu Hnd Hwf (reach_top_par doc m Hr) Hr Hp).
+Qed.
+
+(* ------------------------------------------------------------------ C10: pop removes the node at the position of the path *)
+(* del d[k] / del l[i] *)
+Definition remove (v : vertex hp) (d : json) : option json :=
+  match v, d with
+  | VKey k, JDict i its => match dict_pop its k with Ok (_, l) => Some (JDict i l) | Exn _ => None end
+  | VIdx z, JList i its => match list_del its z with Ok l => Some (JList i l) | Exn _ => None end
+  | _, _ => None
+  end.
+
+Lemma delitem_remove nm y c :
+  child_at (vstep nm) y = Some c ->
+  exists y' i, delitem nm y = Ok (tt, y') /\ remove (vstep nm) y = Some y' /\ label_of y = Some i.
+Proof.
+  destruct nm as [k|z]; destruct y as [| | | | | j its | j its]; cbn [vstep child_at]; try discriminate.
+  - intros Ha. unfold delitem, remove, dict_pop. rewrite Ha. exists (JDict j (dict_remove its k)), j. repeat split.
+  - destruct (list_get its z) as [v|e] eqn:E; [|discriminate]. intros _.
+    destruct (list_get_ok _ _ _ E) as (n & Hn & _). unfold delitem, remove, list_del. rewrite Hn.
+    exists (JList j (del_nth its n)), j. repeat split.
+Qed.
+
+Lemma deval_ki_steps (sev : hp -> jctx -> res json * list sevent) : forall p c c',
+  kipath p = true -> c <> [] -> deval hp sev p c = [c'] -> steps_of c' = steps_of c ++ p.
+Proof.
+  induction p as [|v r IH]; intros c c' Hk Hne Hd; [simpl in Hd; injection Hd as <-; rewrite app_nil_r; reflexivity|].
+  cbn [kipath forallb] in Hk. apply andb_prop in Hk. destruct Hk as [Hv Hr].
+  assert (Hext : forall nm x, vstep nm = v -> deval hp sev r (ext c nm x) = [c'] -> steps_of c' = steps_of c ++ v :: r).
+  { intros nm x Ev H1. rewrite (IH (ext c nm x) c' Hr ltac:(unfold ext; destruct c; discriminate) H1).
+    rewrite steps_ext by exact Hne. rewrite Ev, <- app_assoc. reflexivity. }
+  destruct v as [k | z | | | | | | | |]; try discriminate Hv; cbn [deval] in Hd; unfold select in Hd.
+  - destruct (cdata c) as [| | | | | j its | j its]; cbn [jshape] in Hd; try discriminate.
+    destruct (assoc k its) as [x|]; [|discriminate]. cbn [flat_map] in Hd. rewrite app_nil_r in Hd.
+    exact (Hext (NStr k) x eq_refl Hd).
+  - destruct (cdata c) as [| | | | | j its | j its]; cbn [jshape] in Hd; try discriminate.
+    destruct (list_get its z) as [x|e]; [|discriminate]. cbn [flat_map] in Hd. rewrite app_nil_r in Hd.
+    exact (Hext (NInt z) x eq_refl Hd).
+Qed.
+
+Lemma kipath_no_parent p : kipath p = true -> no_parent p.
+Proof. intros Hk Hin. unfold kipath in Hk. rewrite forallb_forall in Hk. specialize (Hk _ Hin). discriminate. Qed.
+
+Section Pop.
+Variable B H : positive.
+Variable depth : nat.
+Notation sev := (seval_h depth).
+
+Theorem pop_match_position d0 doc (p : list (vertex hp)) must tr (m : jtm) doc' es :
+  kipath p = true -> uniq doc -> NoDup (labels doc) ->
+  pop_match B H depth (SrcDoc d0) doc p must tr = (Ok (Some m), doc', es) ->
+  exists pp v y y', p = pp ++ [v] /\ lookup doc pp = Some y /\ child_at v y = Some (tdata m) /\
+                    remove v y = Some y' /\ doc' = put_at doc pp y'.
+Proof.
+  intros Hk Hu Hnd Hpop. unfold pop_match, jget_match in Hpop.
+  pose proof (get_match_spec B H depth (SrcDoc doc) p must tr I) as Hs. cbv zeta in Hs.
+  destruct (sem_deval hp sev p (kipath_pure sev p Hk) (kipath_valid p Hk) 0 (pmc tr) (abs (root_match (SrcDoc doc)))) as [Hok Hres].
+  unfold answer in Hs. rewrite Hres in Hs. red in Hok.
+  match type of Hs with context [fst ?X] => destruct X as [rg es0] end. cbn [fst] in Hs.
+  destruct rg as [[m0|]|e0]; try discriminate Hpop.
+  destruct (split_last p) as [[pp v]|] eqn:Hsp; [|discriminate Hpop].
+  pose proof (split_last_snoc _ _ _ Hsp) as Hp.
+  destruct (leaf_pop doc m0 v) as [[u|e1] d2] eqn:Hlp; [|discriminate Hpop]. injection Hpop as <- <- _.
+  (* the match found is the single result of the path *)
+  destruct Hs as [(m1 & Hr & Hw & Hh) | [(Hr & _) | [(e & _ & _ & Hr) | (e & Hr & _)]]];
+    [injection Hr as <- | destruct must; simpl in Hr; discriminate Hr
+     | destruct e; try discriminate Hr; destruct must; simpl in Hr; discriminate Hr | discriminate Hr].
+  change (abs (root_match (SrcDoc doc))) with (root_ctx doc) in *.
+  destruct (deval_ki sev p (root_ctx doc) Hk) as [(c' & Hd & Hl) | (Hd & _)]; rewrite Hd in Hh; [|discriminate].
+  simpl in Hh. injection Hh as Hc'. subst c'.
+  assert (Hreach : reach doc (abs m0)).
+  { pose proof (deval_reach sev doc Hu p (root_ctx doc) (kipath_no_parent p Hk) (reach_root doc)) as Hall.
+    rewrite Forall_forall in Hall. apply Hall. rewrite Hd. left. reflexivity. }
+  pose proof (deval_ki_steps sev p (root_ctx doc) (abs m0) Hk ltac:(discriminate) Hd) as Hsteps. cbn [steps_of root_ctx tl map app] in Hsteps.
+  (* its forwarding parent holds the container at the parent position *)
+  destruct (parent m0) as [pm|] eqn:Hpar.
+  2:{ destruct (kipath_snoc pp v ltac:(rewrite <- Hp; exact Hk)) as [_ Hkv].
+      destruct v; try discriminate Hkv; unfold leaf_pop in Hlp; rewrite Hpar in Hlp; discriminate Hlp. }
+  destruct (parent_chain m0 pm Hw (reach_top_par doc m0 Hreach) Hpar) as [Eabs Hwpm].
+  rewrite Eabs in Hreach. destruct (reach_ext_inv doc _ _ _ (abs_nonempty pm) Hreach) as [Hrpm Hc].
+  destruct (reach_chain_ok doc _ Hu Hrpm) as (_ & Hlpm & _).
+  rewrite (cdata_abs pm Hwpm) in Hlpm, Hc.
+  rewrite Eabs, steps_ext in Hsteps by apply abs_nonempty. rewrite Hp in Hsteps.
+  apply app_inj_tail in Hsteps. destruct Hsteps as [Epp Ev]. subst pp v.
+  destruct (delitem_remove (data_name m0) (tdata pm) (tdata m0) Hc) as (y' & i & Hdel & Hrem & Hlab).
+  assert (Hone : cnt (labels doc) i = 1).
+  { pose proof (lookup_cnt _ _ _ _ Hlpm Hlab). pose proof (proj1 (NoDup_count_occ Nat.eq_dec (labels doc)) Hnd i). lia. }
+  destruct (by_id_is_by_position _ doc (tdata pm) i y' Hlpm Hlab Hone) as [Hf Hrep].
+  exists (steps_of (abs pm)), (vstep (data_name m0)), (tdata pm), y'.
+  split; [exact Hp|]. split; [exact Hlpm|]. split; [exact Hc|]. split; [exact Hrem|].
+  (* the deletion by identity is the deletion at that position *)
+  unfold leaf_pop in Hlp. rewrite Hpar in Hlp.
+  destruct (data_name m0) as [k|z]; cbn [vstep] in *;
+    destruct (tdata pm) as [| | | | | j its | j its] eqn:Etd; cbn [child_at] in Hc; try discriminate Hc;
+    unfold mutate in Hlp; cbn [label_of] in Hlp, Hlab; injection Hlab as ->; rewrite Hf, Hdel in Hlp;
+    injection Hlp as _ <-; exact Hrep.
+Qed.
+
+End Pop.
+
+(* ------------------------------------------------------------------ C14: del m.data / m.pop() at the position of m *)
+Theorem match_del_delivered doc (sev : hp -> jctx -> res json * list sevent) (p : list (vertex hp)) (m pm : jtm) :
+  uniq doc -> NoDup (labels doc) -> no_parent p -> wf m ->
+  In (abs m) (deval hp sev p (root_ctx doc)) -> parent m = Some pm ->
+  exists y', lookup doc (steps_of (abs pm)) = Some (tdata pm) /\
+             explicit_path m = steps_of (abs pm) ++ [vstep (data_name m)] /\
+             remove (vstep (data_name m)) (tdata pm) = Some y' /\
+             match_del doc m = (Ok tt, put_at doc (steps_of (abs pm)) y').
+Proof.
+  intros Hu Hnd Hnp Hwf Hin Hp.
+  pose proof (deval_reach sev doc Hu p (root_ctx doc) Hnp (reach_root doc)) as Hall. rewrite Forall_forall in Hall.
+  pose proof (Hall _ Hin) as Hr.
+  destruct (parent_chain m pm Hwf (reach_top_par doc m Hr) Hp) as [Eabs Hwpm].
+  rewrite Eabs in Hr. destruct (reach_ext_inv doc _ _ _ (abs_nonempty pm) Hr) as [Hrpm Hc].
+  destruct (reach_chain_ok doc _ Hu Hrpm) as (_ & Hl & _).
+  rewrite (cdata_abs pm Hwpm) in Hl, Hc.
+  destruct (delitem_remove (data_name m) (tdata pm) (tdata m) Hc) as (y' & i & Hdel & Hrem & Hlab).
+  assert (Hone : cnt (labels doc) i = 1).
+  { pose proof (lookup_cnt _ _ _ _ Hl Hlab). pose proof (proj1 (NoDup_count_occ Nat.eq_dec (labels doc)) Hnd i). lia. }
+  destruct (by_id_is_by_position _ doc (tdata pm) i y' Hl Hlab Hone) as [Hf Hrep].
+  exists y'. split; [exact Hl|]. split; [rewrite explicit_path_steps, Eabs, steps_ext by apply abs_nonempty; reflexivity|].
+  split; [exact Hrem|].
+  unfold match_del. rewrite Hp. unfold mutate. rewrite Hlab, Hf, Hdel, Hrep. reflexivity.
 Qed.
